@@ -32,6 +32,7 @@ DOMAIN = gen.DOMAIN + ["faults are injected only where exactly one schema violat
                        "number-only keywords with effective bounds, 2- and 4-item number lists, number/boolean-only keywords)"]
 
 VIOL = []
+LIST_POOL = []  # roots (valid and faulty) of one type, validated as lists of several roots
 
 
 class ContractBroken(Exception):
@@ -214,6 +215,7 @@ def run(ctx):
             m3 = safe_validate(res, eng, run_.root, dict(case, part="as-list"), via_list=True)
             if m3 is not None and names(m3) != names(msgs):
                 res.violation("list-of-roots-judged-differently", case, names(m3), names(msgs))
+            LIST_POOL.append(run_.root)
     nf = ctx.n(4000, 44000)
     nd = ctx.n(1200, 16000)
     for j in range(nf + nd):
@@ -247,6 +249,27 @@ def run(ctx):
             res.violation("messages-do-not-name-exactly-the-faults", case, sorted(got), sorted(want))
         if len(res.samples) < 2 and len(run_.text) < 500:
             res.sample({"text": run_.text, "faults": case["faults"], "messages": [(m["message"], m["error"][:80]) for m in msgs]})
+        LIST_POOL.append(run_.root)
+        if j % 3 == 0 and len(LIST_POOL) >= 6:
+            # a list of several root dictionaries (faulty ones in any position) == the roots taken one by one
+            t0 = run_.root["__type__"]
+            same = [x for x in LIST_POOL[-60:] if x.get("__type__") == t0]
+            if len(same) >= 2:
+                roots = r.sample(same, min(len(same), r.randint(2, 4)))
+                r.shuffle(roots)
+                try:
+                    one_by_one = []
+                    for x in roots:
+                        one_by_one += eng.validator.validate(x, schema_name=t0)
+                    as_list = eng.validator.validate(roots, schema_name=t0)
+                    res.count("multi_root_lists")
+                    if names(as_list) != names(one_by_one):
+                        res.violation("list-of-roots-judged-differently", {"part": "multi-root-list", "n": len(roots), "type": t0},
+                                      names(as_list), names(one_by_one))
+                except ContractBroken:
+                    raise
+                except Exception as ex:
+                    res.violation("validate-raises", {"part": "multi-root-list"}, f"{type(ex).__name__}: {str(ex)[:200]}", None)
     # ---- (4) never raises + verdict equality on everything loads accepts: vocabulary, corpus, mutated inputs, create()
     from . import C11
     for i, (o, k, ai) in enumerate(gen.vocab_slots()):
